@@ -30,7 +30,9 @@ RULE = (
     "snapshots, a reference merge written from the documented rule (lists concatenate, sets unite, models merge "
     "recursively, None is missing), every provided leaf present in the result, conflicts raise ValueError without "
     "overwrite and the later value wins with it, to_partial/from_partial round trip; any other exception is a "
-    "violation. Non-trivial = triple with >=1 falsy provided leaf, or a nested model on >=2 sides, or >=2 origins; "
+    "violation. Variant overlap: the same data three times by different ways of obtaining it (mixed provenance at every "
+    "nested position); probes: nested objects made with version-less class handles, recursion through a subclass. "
+    "Non-trivial = triple with >=1 falsy provided leaf, or a nested model on >=2 sides, or >=2 origins; "
     "distinct by (class shape, origins, recipes)"
 )
 ASSUMPTIONS = ["associativity only where the classes at one nested position are identical or an inheritance chain "
